@@ -24,6 +24,7 @@ Hybrid of the compiler's symbol table and the source text:
 
 Anything unexpected (compile error, unreadable source line) raises TranslateError."""
 import json
+import os
 import re
 import subprocess
 import sys
@@ -112,6 +113,32 @@ def symbols(objs, repo):
     return out
 
 
+# functions of the C library that keep hidden static state (POSIX: "need not be thread-safe"): a call from the
+# argument-handler sources is shared mutable state although no object of the library shows it
+LIBC_HIDDEN_STATE = set('''strtok rand srand random srandom localtime gmtime ctime asctime strerror setenv putenv
+unsetenv tmpnam tempnam readdir getpwnam getpwuid getgrnam getgrgid gethostbyname gethostbyaddr inet_ntoa ttyname
+basename dirname setlocale getlogin ecvt fcvt gcvt lgamma lgammaf lgammal drand48 erand48 lrand48 nrand48 mrand48
+jrand48 srand48 seed48 lcong48 strsignal l64a a64l crypt getopt getopt_long getdate getservbyname getservbyport
+getprotobyname getnetbyname ptsname mblen mbtowc wctomb nl_langinfo localeconv hsearch hcreate hdestroy setkey
+encrypt getutxent getutxid getutxline pututxline'''.split())
+
+
+def libc_calls(objs, repo):
+    """undefined symbols of the compiled library sources (not of the harness) that name such a function"""
+    out = {}
+    for o, src in zip(objs, units(repo)):
+        if not str(src).startswith(str(Path(repo).resolve())) and not str(src).startswith(str(repo)):
+            continue
+        p = subprocess.run(['nm', '-u', o], stdout=subprocess.PIPE, stderr=subprocess.PIPE, text=True, timeout=300)
+        if p.returncode != 0:
+            raise TranslateError('nm -u failed on ' + o + ': ' + p.stderr[-200:])
+        for line in p.stdout.splitlines():
+            m = re.match(r'^\s*U\s+(\w+)', line)
+            if m and m.group(1).split('@')[0] in LIBC_HIDDEN_STATE:
+                out.setdefault(m.group(1).split('@')[0], set()).add(os.path.relpath(str(src), str(Path(repo) / 'src')))
+    return out
+
+
 def strip_comments(text):
     text = re.sub(r'/\*[\s\S]*?\*/', ' ', text)
     return re.sub(r'//[^\n]*', '', text)
@@ -190,6 +217,9 @@ def inventory(repo):
         inv.append({'name': name, 'kind': kind, 'touched': touched, 'where': f"{s['file']}:{s['line']}", 'why': why})
     if not inv:
         raise TranslateError('no object with static storage duration found at all - scan broken')
+    for fn, where in sorted(libc_calls(objs, repo).items()):
+        inv.append({'name': 'libc:' + fn, 'kind': 'Mutable', 'touched': True, 'where': ','.join(sorted(where))[:80],
+                    'why': 'C library function with hidden static state, called from the argument-handler sources'})
     return inv
 
 
